@@ -333,7 +333,8 @@ def run(tier: str, prop: str = "C01") -> int:
         for k, st in enumerate(e["steps"]):
             ln = lin.get(k + 2)
             # (labels that pass a shared pool object are exempt: the automatic alias of an argument is the one permitted side effect)
-            st["lin"] = "" if ln is None or st["res"] != "new" or any("#pool" in x for x in ln) else chain.get((sid, ln), "")
+            wrapped = any(x["l"].startswith("wrap#") for x in jobs[e["tid"]][4])   # (the receiver of a wrap label legitimately changed: its alias)
+            st["lin"] = "" if ln is None or st["res"] != "new" or wrapped or any("#pool" in x for x in ln) else chain.get((sid, ln), "")
     # 3. judge
     slim = [{"tid": e["tid"], "obs0": e["obs0"], "mut": bool(e.get("mut")), "steps": [{k: s[k] for k in ("r", "l", "res", "obs", "lin")} for s in e["steps"]]} for e in events]
     results = tlc.judge_shards("J_Frozen", "INIT Init\nNEXT Next\n", slim, shard=max(2000, len(slim) // 16 + 1), heap="3g")
